@@ -1,4 +1,6 @@
 import StepModel.SessionLemmas
+import StepModel.SessionProto
+import StepModel.Props.C15
 /-!
 C14 — appending a file keeps both populations whole and their references separate.
 
@@ -518,6 +520,50 @@ theorem C14_increment_function_of_max (asev : Inst → Sev) (s₁ s₂ : Sess) (
     (hf : Conf f) (hq : Quiet asev f) (h : s₁.maxId = s₂.maxId) :
     (appendExchange id asev s₁ f).nodes.drop s₁.nodes.length = (appendExchange id asev s₂ f).nodes.drop s₂.nodes.length :=
   increment_function_of_max_of_nestedOk asev s₁ s₂ f h₁ h₂ hf (nestedOk_all f) hq h
+
+/-! ### "all complete" derived: the attribute-level reader of C15 plugged in
+
+`asevC15` is the severity the C15 model (`AttrNull.instRead` / `complexRead`) reports for the top-level values of an instance,
+given the attribute lists of the schema (`sch`: entity or part name ↦ its attributes) — the function the drivers m_c14 / m_c16 plug
+into the session model.  For a file whose instances are conforming in C15's sense (`AttrNull.CleanL`: every attribute reads without
+complaint) it reports nothing (`C15`'s `instRead_sev_clean`, `complexReadS_sev_clean`, `C15_strict_plumbing`), so `Quiet` holds and
+the instances of an appended file end complete — in either mode. -/
+
+open StepModel.AttrNull in
+def asevC15 (strict : Bool) (sch : String → List AttrD) (i : Inst) : Sev :=
+  match i.parts with
+  | [p] => (instRead (fileStrictFor false strict) (sch p.name) (SessionProto.toksOf p.vals)).1
+  | ps => (complexRead (fileStrictFor true strict) (ps.map (fun p => (sch p.name, SessionProto.toksOf p.vals)))).1
+
+open StepModel.AttrNull in
+/-- every part of the instance is a conforming parameter list for its entity's attributes, in the mode at hand -/
+def TypedOk (strict : Bool) (sch : String → List AttrD) (i : Inst) : Prop :=
+  ∀ p ∈ i.parts, CleanL strict (sch p.name) (SessionProto.toksOf p.vals)
+
+open StepModel.AttrNull in
+theorem quiet_of_typed (strict : Bool) (sch : String → List AttrD) (f : List Inst) (h : ∀ i ∈ f, TypedOk strict sch i) :
+    Quiet (asevC15 strict sch) f := by
+  intro i hi
+  have ht := h i hi
+  unfold asevC15
+  split
+  · rename_i p hp
+    exact instRead_sev_clean (C15_strict_plumbing strict).1 (ht p (by rw [hp]; simp))
+  · apply complexReadS_sev_clean codeShape (C15_strict_plumbing strict).2.1
+    intro q hq
+    simp only [List.mem_map] at hq
+    obtain ⟨p, hp, rfl⟩ := hq
+    exact ht p hp
+
+/-- C14 with C15's reader in place of the hypothesis `Quiet`: appending any conforming, well-typed file leaves both populations
+    whole, every reference of the appended one moved by the one offset, and EVERY appended instance complete -/
+theorem C14_both_present_typed (strict : Bool) (sch : String → List AttrNull.AttrD) (s : Sess) (f : List Inst) (hs : Inv s) (hf : Conf f)
+    (ht : ∀ i ∈ f, TypedOk strict sch i) :
+    (appendExchange id (asevC15 strict sch) s f).nodes =
+      s.nodes ++ f.map (fun i => ⟨i.shift (fileIdIncrOf s.maxId), .complete⟩) ∧
+    Inv (appendExchange id (asevC15 strict sch) s f) := by
+  have h := C14_both_present (asevC15 strict sch) s f hs hf (quiet_of_typed strict sch f ht)
+  exact ⟨h.1, h.2.2⟩
 
 /-! ### hypotheses are satisfiable; the interesting case (identical ids in both files) is covered -/
 
